@@ -370,6 +370,32 @@ def run(repo, res, tier):
                     truthy = [(t, pol) for t, pol in fw.guards if pol and t.replace("._", ".") == fw.source.replace("._", ".")]
                     res.check("PB-GUARD", "%s.%s: presence of %s is not tested by truthiness" % (mname, f, fw.source), not truthy, wmod, fw.node, "%s.%s written only if %s is truthy" % (mname, f, fw.source), "False / 0 / 0.0 are values, not absence: they are dropped on writing and read back as the default", qualname=qn)
 
+        # ---------------- PB-GUARD: whether an attribute is written depends on that attribute only.  A condition
+        # on a sibling attribute of the written object drops the value for objects the model allows.
+        for fw in b.writes:
+            if not fw.source or "." not in fw.source:
+                continue
+            parts = fw.source.split(".")
+            root, sattr = parts[0], parts[1].split("[")[0].lstrip("_")
+            if root not in b.params:
+                continue
+            for t, pol in fw.guards:
+                try:
+                    te = ast.parse(t, mode="eval").body
+                except SyntaxError:
+                    continue
+                others = set()
+                for n in ast.walk(te):
+                    ch = attr_chain(n) if isinstance(n, ast.Attribute) else None
+                    if ch and len(ch) >= 2 and ch[0] == root:
+                        others.add(ch[1].lstrip("_"))
+                    if isinstance(n, ast.Call) and call_name(n) in ("getattr", "hasattr") and len(n.args) >= 2 and isinstance(n.args[0], ast.Name) and n.args[0].id == root:
+                        others.add("*")
+                if not others or "*" in others:
+                    continue
+                ok = sattr in others
+                res.check("PB-GUARD", "%s.%s <- %s is written under `%s`, a test of that attribute" % (mname, fw.field, fw.source, t[:60]), ok, wmod, fw.node, "%s.%s written only when %s%s" % (mname, fw.field, "" if pol else "not ", t[:80]), "whether %s is written depends on %s, another attribute of the object: for objects where that test fails the value is dropped" % (fw.source, ", ".join(sorted(others))), qualname=qn)
+
         # ---------------- PB-NULL (writer totality)
         if dom is not None:
             p = b.params[0]
